@@ -5,6 +5,7 @@ import (
 	"go/token"
 	"go/types"
 	"sort"
+	"strings"
 
 	"verif/mlbcheck/chk"
 )
@@ -24,6 +25,8 @@ func init() {
 			"allocator as values; float64 rounding of 2^n for n < 62 (exact).",
 		Run: runC11,
 		Mutants: []Mutant{
+			{Name: "status-skipped-from-remembered-counters", File: "internal/k8s/controllers/pool_status_controller.go",
+				Old: "\tc := r.CountersFetcher(pool.Name)\n", New: "\tc := r.CountersFetcher(pool.Name)\n\tif c.AssignedIPv4 == 0 && c.AssignedIPv6 == 0 {\n\t\treturn ctrl.Result{}, nil\n\t}\n", Expect: "FIELDMAP"},
 			{Name: "non-balancer-with-empty-status-keeps-address", File: "controller/service.go",
 				Old: "\tif svc.Spec.Type != v1.ServiceTypeLoadBalancer {\n", New: "\tif svc.Spec.Type != v1.ServiceTypeLoadBalancer {\n\t\tif len(svc.Status.LoadBalancer.Ingress) == 0 {\n\t\t\treturn nil\n\t\t}\n", Expect: "RELEASE-ON-EXIT"},
 			{Name: "unassign-forgets-tenant", File: "internal/allocator/allocator.go",
@@ -66,6 +69,10 @@ func runC11(p *chk.Prog, r *chk.Report) {
 	// a request refused after its addresses were assigned gives them back (REQUEST-IPS, shared with C02): the pool
 	// counters otherwise include an address no Service holds
 	c02Requests(p, r)
+	// an address is released together with everything recorded for it (ports, sharing key): the books are only written
+	// by assign / Unassign, and a successful Assign went through them (OWN-ALLOC, ASSIGN-COMMITS, shared with C01)
+	assignCommitsRule(p, r)
+	c01OwnAlloc(p, r)
 }
 
 var allocMaps = []string{"allocated", "sharingKeyForIP", "portsInUse", "servicesOnIP", "poolIPsInUse", "poolIPV4InUse", "poolIPV6InUse"}
@@ -621,7 +628,15 @@ func c11Stats(p *chk.Prog, r *chk.Report) {
 			e, ok := n.(ast.Expr)
 			return ok && rf.MatchWith("v1beta1.IPAddressPoolStatus{AssignedIPv4: C.AssignedIPv4, AssignedIPv6: C.AssignedIPv6, AvailableIPv4: C.AvailableIPv4, AvailableIPv6: C.AvailableIPv6}", e, chk.H("C", c)) != nil
 		})
-		y.Check("PoolStatusReconciler:field-map", rf.Pos(), len(lits) == 1, "", "the pool status is not the allocator's counters copied name for name")
+		nMap := len(lits)
+		if nMap == 0 {
+			// the struct conversion IPAddressPoolStatus(counters): the compiler admits it only for identical field names,
+			// types and order - a name-for-name copy by construction
+			nMap = len(g.FindPat("v1beta1.IPAddressPoolStatus(C)", chk.H("C", func(e ast.Expr) bool {
+				return c(e) || rf.MatchNew("RECV.CountersFetcher(POOL.Name)", e) != nil
+			})))
+		}
+		y.Check("PoolStatusReconciler:field-map", rf.Pos(), nMap == 1, "", "the pool status is not the allocator's counters copied name for name")
 		// after the write, nil is returned only when the write succeeded; any other return hands back the write's own
 		// error (the call itself, or the variable holding its result) or a fresh error
 		updOK := g.GErrNil(true, "RECV.Client.Status().Update(ETC)")
@@ -653,6 +668,27 @@ func c11Stats(p *chk.Prog, r *chk.Report) {
 				ok = false
 			}
 		}
+		// the reported status is compared with what the pool object says now, never with what this process remembers
+		// having written: success without a write is returned only for a pool that does not exist or whose current
+		// status already equals the counters (a remembered copy goes stale when the pool is deleted and created again,
+		// or when its status is reset from outside)
+		status := func(e ast.Expr) bool {
+			b := rf.MatchNew("P.Status", e)
+			return b != nil
+		}
+		newSt := func(e ast.Expr) bool {
+			t := rf.Info().TypeOf(e)
+			return t != nil && strings.HasSuffix(t.String(), "v1beta1.IPAddressPoolStatus") && !status(e)
+		}
+		same := chk.GSame(g.GPat(true, "reflect.DeepEqual(S, N)", chk.H("S", status), chk.H("N", newSt)), g.GPat(true, "reflect.DeepEqual(N, S)", chk.H("S", status), chk.H("N", newSt)),
+			g.GPat(true, "S == N", chk.H("S", status), chk.H("N", newSt)), g.GPat(true, "N == S", chk.H("S", status), chk.H("N", newSt)))
+		allowed := chk.GAnyOf(g.GPat(true, "apierrors.IsNotFound(E)"), same)
+		isWrite := rf.ContainsPat("RECV.Client.Status().Update(ETC)")
+		wNo := (&chk.Walk{G: g, Stop: isWrite, Hit: func(n ast.Node) bool {
+			rt, okk := n.(*ast.ReturnStmt)
+			return okk && len(rt.Results) == 2 && rf.IsNilLit(rt.Results[1])
+		}, Cut: func(b *cfgBlock, k int) bool { return g.EdgeImplies(b, k, allowed) }}).Run()
+		y.Check("PoolStatusReconciler:no-success-without-comparing-current-status", posOf(wNo, rf), !wNo.Found, "", "the reconciler can report success without a write for a reason other than `the pool is gone` or `its current status already equals the counters`: "+describe(rf, wNo))
 		y.Check("PoolStatusReconciler:write-error-returned", rf.Pos(), ok, "", "an error of the status write (e.g. a conflict) is swallowed: nothing retries the write and the reported counters stay stale")
 	}
 	cf := need(y, p, allocPkg, "Allocator", "CountersForPool")
